@@ -2,7 +2,7 @@
 From Coq Require Import String ZifyN ZifyBool ZifyNat Permutation.
 From Slock Require Import Engine.Types Engine.Queues Engine.Timers Engine.Engine Engine.Engine2 Engine.InvDef Engine.InvBase
   Engine.InvPrims Engine.InvRec Engine.InvWheel Engine.InvQueue Engine.InvQueue2 Engine.InvSteps Engine.InvLockDefs Engine.InvLock
-  Engine.InvUnlock Engine.InvSweep Engine.InvMain.
+  Engine.InvUnlock Engine.InvSweep Engine.InvMain Engine.InvNext.
 Open Scope N_scope.
 
 (* reachable states of the core subset *)
@@ -11,6 +11,21 @@ Definition core_run (s0 : db) (acts : list action) : Prop :=
 
 Theorem inv_reachable t0 a acts : core_run (init_db t0 a) acts -> Inv (fst (run (init_db t0 a) acts)).
 Proof. intros [H1 H2]. apply inv_run_bounded; auto. apply inv_init. Qed.
+
+(* fewer than 2^24 - 2 actions cannot allocate 2^24 lock records *)
+Lemma bounded_of_length acts : forall s, Forall (fun a => core_action a = true) acts ->
+  next s + N.of_nat (length acts) < MAXREC -> bounded_run s acts.
+Proof.
+  induction acts as [|x rest IH]; intros s Hc Hb; simpl; [exact I|].
+  inversion Hc; subst. split; [simpl in Hb; lia|]. apply IH; auto.
+  pose proof (nx_step_le s x H1). simpl length in Hb. lia.
+Qed.
+Lemma core_core_run t0 a acts : core acts -> core_run (init_db t0 a) acts.
+Proof. intros [H1 H2]. split; auto. apply bounded_of_length; auto. change (next (init_db t0 a)) with 1. lia. Qed.
+
+(* THE REACHABILITY INVARIANT: every state reached by core actions from the initial state satisfies Inv *)
+Theorem inv_core t0 a acts : core acts -> Inv (fst (run (init_db t0 a) acts)).
+Proof. intros H. apply inv_reachable. apply core_core_run; auto. Qed.
 
 (* ---------------------------------------------------------------- C01: `locked` is the sum of the outstanding depths *)
 Lemma dlk_g0 k : dlk g0 k = 0%Z.  Proof. unfold dlk, g0. cbn. destruct (k =? 0); reflexivity. Qed.
@@ -136,9 +151,9 @@ Qed.
 (* ---------------------------------------------------------------- the same, for every reachable state *)
 Section Reach.
   Variables (t0 : Z) (a : N) (acts : list action).
-  Hypothesis Hcore : core_run (init_db t0 a) acts.
+  Hypothesis Hcore : core acts.
   Let s := fst (run (init_db t0 a) acts).
-  Let G : Inv s := inv_reachable t0 a acts Hcore.
+  Let G : Inv s := inv_core t0 a acts Hcore.
 
   Lemma reach_locked_is_sum : forall k, m_locked (getm s k) = sumdepth s (holders (getm s k)).
   Proof. exact (inv_locked_is_sum s G). Qed.
@@ -180,3 +195,69 @@ Section Reach.
     exists l, aget (store s) r = Some l /\ l_key l = k /\ 0 < l_locked l /\ c_lockid (l_cmd l) = id /\ In r (holders m).
   Proof. exact (inv_lookup_sound s G). Qed.
 End Reach.
+
+(* ---------------------------------------------------------------- beyond the core subset: the re-entrant ack defect *)
+(* A re-entrant re-lock carrying the require-ack flag on a persisted hold pushes an AOF record that asks for an
+   acknowledgement (db.go re-entrant branch -> PushLockAof) without taking a reference for it; DoAckLock on a hold that
+   is not ack-pending drops a reference (A0 branch).  Two such re-locks, both acknowledged, free the live hold and its
+   key manager while the expiry wheel still points at the record; the expiry sweep then uses it after free. *)
+Definition is_uaf (e : event) : bool := match e with EPanic site => String.prefix "uaf:" site | _ => false end.
+Definition ack_uaf_history : list action :=
+  [AReq 1 (make_cmd true 1 0 101 7 0 5 0 10 0 2 None);          (* LockId 101 takes key 7 (persisted at once: aof time 0) *)
+   AReq 1 (make_cmd true 2 0 101 7 4096 5 0 10 0 2 None);       (* re-entrant, require-ack *)
+   AReq 1 (make_cmd true 3 0 101 7 4096 5 0 10 0 2 None);       (* re-entrant, require-ack *)
+   AAck 1 true; AAck 1 true;                                     (* both records acknowledged *)
+   AAdvance 20; ASweepE].
+Lemma C11_refuted_reentrant_ack :
+  let '(s, evs) := run (init_db 1000000 0) ack_uaf_history in
+  existsb is_uaf (last evs []) = true                              (* doExpried runs on a freed Lock *)
+  /\ (let s5 := fst (run (init_db 1000000 0) (firstn 5 ack_uaf_history)) in
+      aget (store s5) 1 = None /\ aget (mgrs s5) 7 = None          (* the hold (depth 3) and its key are gone ... *)
+      /\ wrefs (ewheel s5) = [1])                                   (* ... but the expiry wheel still references it *)
+  /\ (let s3 := fst (run (init_db 1000000 0) (firstn 3 ack_uaf_history)) in
+      m_locked (getm s3 7) = 3 /\ m_cur (getm s3 7) = Some 1).
+Proof. vm_compute. repeat split; reflexivity. Qed.
+
+(* ---------------------------------------------------------------- drained states (partial: see the report) *)
+Lemma asumN_zero {V} (f : V -> N) (m : amap V) : (forall k v, aget m k = Some v -> f v = 0) -> awf m -> asumN f m = 0.
+Proof.
+  intros H W. induction m as [|[k0 v0] t IH]; simpl; auto.
+  rewrite (H k0 v0) by (simpl; rewrite N.eqb_refl; auto). simpl. apply IH.
+  - intros k v Hg. apply (H k v). apply in_aget; auto. right. apply aget_in; auto.
+  - inversion W; auto.
+Qed.
+
+(* once every lock record has been freed: LockedCount = WaitCount = 0, no structure holds a reference, every remaining
+   key manager is idle (locked 0, no holder, no waiter, refCount 0) *)
+Theorem inv_drained s : Inv s -> store s = [] ->
+  n_locked (cnt s) = 0%Z /\ n_wait (cnt s) = 0%Z
+  /\ wrefs (twheel s) = [] /\ wrefs (tlong s) = [] /\ wrefs (ewheel s) = [] /\ wrefs (elong s) = []
+  /\ forall k m, aget (mgrs s) k = Some m -> m_locked m = 0 /\ holders m = [] /\ m_wq m = [] /\ m_ref m = 0.
+Proof.
+  intros G Hs.
+  assert (Hm : forall k m, aget (mgrs s) k = Some m -> m_locked m = 0 /\ holders m = [] /\ m_wq m = [] /\ m_ref m = 0).
+  { intros k m Hk. destruct (gi_mgr _ _ G k m Hk) as [B1 B2 B3 B4 B5 B6 B7 B8 B9 Bb B10 Bc].
+    rewrite phk_g0 in B1. rewrite dlk_g0 in B6.
+    assert (Hl : holders m ++ m_wq m = []).
+    { apply occ_all_zero_nil. intros r0. destruct (occ r0 (holders m ++ m_wq m)) eqn:E; auto. exfalso.
+      apply (B1 r0); [simpl; lia|rewrite Hs; reflexivity]. }
+    apply app_eq_nil in Hl. destruct Hl as [H1 H2]. rewrite H1 in B6. simpl in B6.
+    rewrite Hs in B9. simpl in B9. repeat split; auto; lia. }
+  assert (Hw : forall r, (tcount s g0 r + ecount s g0 r)%nat = O) by (intros r; apply (gi_str _ _ G); rewrite Hs; reflexivity).
+  unfold tcount, ecount, g0 in Hw. cbn in Hw.
+  pose proof (gi_nlocked _ _ G) as N1. pose proof (gi_nwait _ _ G) as N2. unfold g0 in N1, N2. cbn in N1, N2.
+  rewrite Hs in N2. simpl in N2.
+  assert (Hsum : sum_locked (mgrs s) = 0).
+  { unfold sum_locked. apply asumN_zero; [|apply (gi_wf_m _ _ G)]. intros k m Hk. apply (Hm k m Hk). }
+  rewrite Hsum in N1.
+  split; [lia|]. split; [lia|].
+  split; [|split; [|split; [|split; [|exact Hm]]]]; apply occ_all_zero_nil; intros r; specialize (Hw r); lia.
+Qed.
+
+Lemma reach_drained t0 a acts : core acts -> store (fst (run (init_db t0 a) acts)) = [] ->
+  n_locked (cnt (fst (run (init_db t0 a) acts))) = 0%Z /\ n_wait (cnt (fst (run (init_db t0 a) acts))) = 0%Z
+  /\ wrefs (twheel (fst (run (init_db t0 a) acts))) = [] /\ wrefs (tlong (fst (run (init_db t0 a) acts))) = []
+  /\ wrefs (ewheel (fst (run (init_db t0 a) acts))) = [] /\ wrefs (elong (fst (run (init_db t0 a) acts))) = []
+  /\ forall k m, aget (mgrs (fst (run (init_db t0 a) acts))) k = Some m ->
+       m_locked m = 0 /\ holders m = [] /\ m_wq m = [] /\ m_ref m = 0.
+Proof. intros H. apply inv_drained. apply inv_core; auto. Qed.
